@@ -91,6 +91,36 @@ def _invalidates_cache(f):
     return inner_func
 
 
+class _restartable(object):
+    """
+    Iterator over ``func()`` feeding the result cache. If the underlying
+    generator dies of anything other than StopIteration, it is replaced by a
+    fresh one at the same position, so that the cached object raises again on
+    the next request (like an uncached one) instead of taking the dead
+    generator's StopIteration for the end of the recurrence.
+    """
+    def __init__(self, func):
+        self._func = func
+        self._gen = func()
+        self._pos = 0
+
+    def __iter__(self):
+        return self
+
+    def __next__(self):
+        try:
+            item = advance_iterator(self._gen)
+        except StopIteration:
+            raise
+        except BaseException:
+            self._gen = itertools.islice(self._func(), self._pos, None)
+            raise
+        self._pos += 1
+        return item
+
+    next = __next__
+
+
 class rrulebase(object):
     def __init__(self, cache=False):
         if cache:
@@ -114,7 +144,7 @@ class rrulebase(object):
         if self._cache is not None:
             self._cache = []
             self._cache_complete = False
-            self._cache_gen = self._iter()
+            self._cache_gen = _restartable(self._iter)
 
             if self._cache_lock.locked():
                 self._cache_lock.release()
@@ -140,6 +170,11 @@ class rrulebase(object):
                         self._cache_gen = gen = None
                         self._cache_complete = True
                         break
+                    except Exception:
+                        # An error met while reading ahead is reported when
+                        # the failing position itself is requested.
+                        if i == len(cache):
+                            raise
                 finally:
                     release()
             yield cache[i]
